@@ -177,6 +177,9 @@ theorem read_in_file (bo : ByteOrder) (ibd : List UInt8) (off len : Nat) (dt : D
     simp only [List.length_take, List.length_drop]
     omega
 
+example : (4 : Nat) + 8 ≤ ([0, 0, 0, 0, 0, 0, 0x80, 0x3f, 0, 0, 0, 0x40, 0xff] : List UInt8).length ∧ 8 % DType.f32.width = 0 := by
+  decide
+
 example : getBinaryData .little [0, 0, 0, 0, 0, 0, 0x80, 0x3f, 0, 0, 0, 0x40, 0xff] 4 8 .f32 = some [0x3f800000, 0x40000000]
     ∧ valueOf .f32 0x3f800000 = some 1 ∧ valueOf .f32 0x40000000 = some 2
     ∧ valueOf .f64 0x4059000000000000 = some 100 ∧ valueOf .f32 0xc2c80000 = some (-100)
@@ -313,6 +316,18 @@ theorem extract_image_correct (size : Option (Int × Int)) (file : List Spectrum
     have hm := (specAt_pos file r c s h).1
     simp only [Option.map_some]
     rw [extract_correct _ _ _ (hs s hm).1 (hs s hm).2]
+
+example : let file : List Spectrum := [⟨2, 1, none, [100, 200], [1, 2]⟩, ⟨1, 2, some 7, [150], [4]⟩]
+    (imageSize (some (2, 2)) (spectraDict file)).bind shapeOf = some (2, 2) ∧
+    InDomain (2, 2) (spectraDict file) ∧ (∀ s ∈ file, Incr s.mz ∧ s.it.length = s.mz.length) ∧
+    (extractImage (some (2, 2)) (spectraDict file) [150, 400] (.mz 100)).map (fun r => tabulate r.1 r.2)
+      = some [[none, some [1, 0]], [some [4, 0], none]] := by
+  refine ⟨by decide +kernel, by rw [← inDomainB_iff]; decide +kernel, ?_, by decide +kernel⟩
+  intro s hs
+  simp only [List.mem_cons, List.not_mem_nil, or_false] at hs
+  rcases hs with rfl | rfl
+  · exact ⟨by simp only [Incr]; norm_num, rfl⟩
+  · exact ⟨by simp only [Incr], rfl⟩
 
 /-- TIC image (corollary of `image_correct`): the stored total ion current, or the summed
 intensities when it is absent, at `[y-1][x-1]`; NaN where no spectrum was recorded. -/
